@@ -26,6 +26,18 @@ class C05Oracle(Oracle):
         w.rets = []  # type: ignore[attr-defined]
         w.ret_hook = lambda name: w.rets.append((name, w.outcome(name), w.state()))  # type: ignore[attr-defined]
 
+    def verdict(self, w: LifeWorld) -> list[str]:
+        # a fatal error that has taken effect: the library's own transport is gone (closed by the library or torn down under it).
+        # Once the loop is quiet the connection must read CLOSED - in particular it must not sit in (or later reach) a connect
+        # phase's target state on a dead transport.
+        if w.loop.busy() or not w.transports:
+            return []
+        t = w.transports[-1]
+        st = w.state()
+        if t.is_closing() and st != "CLOSED":
+            return [f"C05:close-lost:the connection's transport is closed and the loop is quiet, yet the state reads {st} (is_connected={w.conn.is_connected})"]
+        return []
+
     def key(self, w: LifeWorld) -> Any:
         return tuple(w.rets)  # type: ignore[attr-defined]
 
